@@ -18,30 +18,37 @@ from vf.core import Reject
 SCHED = True  # vf.worker installs the permuted task loop and uses the warp-sched kernel cache
 
 RULE = (
-  "case = sleep-enabled scene (2-8 trees resting on a plane in 2-4 piles: free spheres/boxes/capsules, stacked or alone, 2-body free chains with a hinge/slide child; "
-  "0-2 damped pendulum arms hinged to the world, optionally motor-driven (policy AUTO_NEVER); optional connect/weld (body or site semantics)/joint/tendon equalities and limited "
-  "spatial/fixed tendons linking different trees; a mocap box; sleep_tolerance 1e-4..0.3; Newton, both cones, dense/sparse, Euler/implicitfast/implicit) x 1-2 worlds x a "
-  "drawn history of ops (step xn, xfrc/qfrc/qvel poke, clear forces, move the mocap box into a pile, toggle eq_active, drop a body onto a pile, ctrl) x thread order "
-  "(ascending, descending, hashed permutation, or a different permutation per kernel; the same order for the whole history). "
-  "oracle per step and world: (D) MuJoCo C stepped in lock-step from the same float32 state (awake trees resynchronised from MJWarp after every step): tree_asleep sign pattern, "
-  "countdown values of trees awake in both, sleep-cycle partition, tree_awake, body_awake equal; (I1) a tree asleep before and after the step in the same cycle, not poked and with "
-  "no wake cause, has bit-identical qpos/qvel; (I2) a tree that fell asleep, and every tree of its island, was below the tolerance (and force-free) for mjMINAWAKE consecutive "
-  "evaluations (reference counter on MJWarp's own velocities); its cycle is exactly the island's trees; (I3) a tree that was asleep is awake after the step when it carries applied "
-  "force / non-zero velocity, or (while its partner stays awake) touches an awake tree, or is linked to one by an active connect/weld/joint equality or a limited tendon whose "
-  "limit is active; (I4) tree_asleep>=0 entries form closed cycles over sleeping trees, tree_awake/body_awake agree with tree_asleep. "
-  "evaluation = one (step, world) judged; non-trivial = history with a sleep->wake transition caused by contact/equality/tendon (no poke on that tree) or a step after which "
-  "some tree newly fell asleep while another tree of the same world stayed awake"
+  "case = sleep-enabled scene (2-8 free trees resting on a plane in 2-4 piles 0.6 m apart: spheres/boxes/lying capsules, stacked or alone, 2-body free chains with a hinge or limited slide "
+  "child; 0-2 damped pendulum arms hinged to the world, optionally motor-driven (tree policy AUTO_NEVER); optional connect/weld (body semantics), connect (site semantics), joint "
+  "equalities and limited spatial/fixed tendons linking different trees; a mocap box; sleep_tolerance 1e-4..0.3; Newton, both cones, dense/sparse, Euler/implicitfast/implicit) "
+  "x 1-2 worlds x a drawn history of ops (step xn with n<=120 (200 thorough), xfrc/qfrc/qvel poke, shove a body, clear forces, move the mocap box into a pile, toggle eq_active, drop a "
+  "body onto a pile, ctrl; per world or all worlds) x thread order (ascending, descending, hashed permutation, or a different permutation per kernel, kept for the whole history). "
+  "oracle per step and world: (D) MuJoCo C stepped in lock-step from the same float32 state and the same tree_asleep (after each step awake trees are resynchronised from MJWarp and "
+  "tree_asleep from MuJoCo): per island/cycle group the sign pattern of tree_asleep, the countdown values of awake trees and the sleep-cycle partition must be equal, then tree_awake "
+  "and body_awake; contact pairs that involve a body not asleep in both engines must be the same set unless MJWarp without sleeping disagrees with MuJoCo too; a group that differs "
+  "is attributed to the known ordering finding only if the quiet predicate of one of its trees differs between pre- and post-step velocity and MJWarp's result equals mj_sleep's "
+  "counter rule evaluated on the post-step speeds (from the common counters, MJWarp's islands); (I1) a tree asleep before and after the step in the same cycle, not poked and without "
+  "wake cause, has bit-identical qpos/qvel; (I2, worlds whose MuJoCo reference died) tree_asleep follows mj_sleep's counter rule (count up while below tolerance and force-free, "
+  "reset otherwise, an island sleeps when all its trees reached -1, cycle = island trees) on pre- or post-step speeds; (I3) a tree that was asleep is awake after the step when it "
+  "carries applied force / non-zero velocity, or (while the partner stays awake) touches an awake tree, or is linked to one by an active connect/weld/joint equality or a limited "
+  "tendon whose limit is active; a tree with applied force never falls asleep; (I4) tree_asleep>=0 entries form closed cycles over sleeping trees, tree_awake/body_awake agree with "
+  "tree_asleep. evaluation = one (step, world) judged; non-trivial = history with a sleep->wake transition caused by contact/equality/tendon (no poke on that tree) or a step after "
+  "which some tree newly fell asleep while another tree of the same world stayed awake"
 )
 ASSUMPTIONS = [
   "only the automatic sleep policies exist in MJWarp (explicit body sleep=never/allowed/init is rejected by put_model, documented): AUTO_NEVER is produced with actuated arms",
-  "the lock-step ends (counted boundary_skipped) at the first step where the engines disagree and the reference sits on a discontinuity: a scaled dof speed within 1e-6+2|dv| of "
-  "the tolerance, a contact present in one engine only or with |dist| < 1e-5, a tendon limit distance within 1e-6 of its margin",
+  "tendon equalities are not generated: MuJoCo C 3.13 aborts with 'mj_wakeEquality: tendon equality does not yet support sleeping', so there is no reference",
+  "a group (island/cycle) that differs from MuJoCo is not judged at that step (counted boundary_skipped) when the reference sits on a discontinuity: a scaled dof speed within 1e-5 "
+  "(relative) of the tolerance, a contact reported by one engine only with |dist| < 1e-5, a contact on which MJWarp with and without sleeping agree against MuJoCo (ordinary collision "
+  "difference or the one-step position offset of a sleeping tree), a tendon limit distance within 1e-5 of its margin; the engines are resynchronised and the history continues",
+  "MuJoCo FatalError (seen: 'mj_sleep: found sleeping tree in island' with equalities between sleeping trees) or a MuJoCo auto-reset ends the lock-step of that world (counted); "
+  "the world is then judged by I1-I4 only",
   "serial task orders only (DESIGN 2.4): tasks of one launch are permuted, never interleaved",
   "RK4 is not generated (its contact list / islands are those of the last sub-stage); ample capacities (nconmax=64 per world, njmax=256); histories that set an overflow bit or "
   "produce non-finite state are discarded and counted",
   "positions/velocities themselves are not compared with MuJoCo (that is C08); MuJoCo follows MJWarp's state so that round-off cannot decide who sleeps first",
 ]
-BUDGET = {"quick": dict(examples=320, seconds=150, workers=16), "thorough": dict(examples=6000, seconds=1500, workers=16)}
+BUDGET = {"quick": dict(examples=224, seconds=120, workers=16), "thorough": dict(examples=4000, seconds=1500, workers=16)}
 
 NCON, NJ = 64, 256
 MINAWAKE = int(mujoco.mjMINAWAKE)
@@ -50,12 +57,12 @@ DEBUG = False
 BAND = 1e-5  # scaled speeds within this relative distance of the tolerance are ties (float32 vs float64 evaluation of |dof_length*qvel| < tolerance)
 _CAP = int(OT.NEFC | OT.NJMAX_NNZ | OT.BROADPHASE | OT.NARROWPHASE | OT.CCD | OT.NVMAX | OT.EPA_HORIZON)
 _MJ_BAD = [int(mujoco.mjtWarning.mjWARN_BADQPOS), int(mujoco.mjtWarning.mjWARN_BADQVEL), int(mujoco.mjtWarning.mjWARN_BADQACC)]  # MuJoCo reset its MjData
-MAXSTEPS = {"quick": 200, "thorough": 450}
+MAXSTEPS = {"quick": 160, "thorough": 450}
 
 SPH = [0.08, 0.1, 0.14]
 BOX = [(0.1, 0.1, 0.1), (0.15, 0.1, 0.06), (0.08, 0.12, 0.1)]
 CAP = [(0.06, 0.12), (0.08, 0.1), (0.05, 0.15)]  # radius, half length (lying along x)
-PILE_DX = 1.0
+PILE_DX = 0.6
 OVERLAP = 0.0005
 
 
@@ -76,7 +83,7 @@ def _link():
       a=st.integers(0, 9),
       b=st.integers(0, 9),
       active=st.sampled_from([True, True, False]),
-      slack=st.sampled_from([0.97, 0.995, 1.02, 1.3]),  # tendon upper range = slack * initial length (fixed tendons: range half width = slack - 1)
+      slack=st.sampled_from([0.97, 0.995, 1.005, 1.02, 1.3]),  # tendon upper range = slack * initial length (fixed tendons: range half width = slack - 1)
       margin=st.sampled_from([0.0, 0.0, 0.03]),
     )
   )
@@ -96,7 +103,8 @@ def _op(tier):
     dict(op=st.just("drop"), i=st.integers(0, 9), p=st.integers(0, 3), h=st.sampled_from([0.005, 0.05, 0.4]), dx=st.sampled_from([0.0, 0.05, -0.12]), v=st.sampled_from([-0.01, -0.5]), w=w)
   )
   ctrl = st.fixed_dictionaries(dict(op=st.just("ctrl"), i=st.integers(0, 3), v=st.sampled_from([0.0, 0.3, -1.0]), w=w))
-  return st.one_of(step, step, step, xfrc, qfrc, qvel, clear, clear, mocap, eq, eq, drop, drop, ctrl)
+  shove = st.fixed_dictionaries(dict(op=st.just("shove"), i=st.integers(0, 9), v=st.sampled_from([1.0, -1.0, 3.0, -3.0]), w=w))
+  return st.one_of(step, step, step, step, xfrc, qfrc, qvel, clear, clear, mocap, eq, eq, drop, drop, shove, shove, ctrl)
 
 
 def strategy(tier):
@@ -111,6 +119,7 @@ def strategy(tier):
       arms=st.lists(st.fixed_dictionaries(dict(damping=st.sampled_from([0.5, 2.0]), motor=st.sampled_from([False, False, True]), q0=st.sampled_from([0.0, 0.0, 0.4]))), min_size=0, max_size=2),
       links=st.lists(_link(), min_size=0, max_size=3),
       mocap=st.booleans(),
+      policy=st.sampled_from(["auto"] * 47 + ["never", "allowed", "init"]),  # explicit policies: documented rejection by put_model (counted)
     )
   )
   return st.fixed_dictionaries(
@@ -125,9 +134,68 @@ def strategy(tier):
   )
 
 
+def enumerate_cases(tier, seed):
+  """Deterministic scenario templates run before the Hypothesis phase: one per wake cause / sleeping pattern the statement names, varied by the seed."""
+  g = np.random.default_rng(int(seed) + 2900)
+  tols = [0.02, 0.05, 0.3]
+  geoms = ["sphere", "box", "capsule"]
+  scheds = [0, 1, 3, 7, 4242 + int(seed)]
+  out = []
+
+  def scene(piles, links=(), arms=(), mocap=False, k=0):
+    return dict(
+      tol=tols[(k + int(seed)) % 3], dt=[0.002, 0.005][(k + int(seed)) % 2], cone=["pyramidal", "elliptic"][k % 2], jacobian=["dense", "sparse"][(k // 2) % 2],
+      integrator=["Euler", "implicitfast", "implicit"][k % 3],
+      piles=[[dict(g=x, s=int(g.integers(0, 3)), dx=0.0) for x in pile] for pile in piles], arms=list(arms), links=list(links), mocap=mocap,
+    )
+
+  def link(kind, a, b, active=True, slack=1.02, margin=0.0):
+    return dict(kind=kind, a=a, b=b, active=active, slack=slack, margin=margin)
+
+  def case(sc, ops, first=70, nworld=1, k=0):
+    return dict(scene=sc, nworld=nworld, first=first, ops=ops, sched=scheds[(k + int(seed)) % len(scheds)], tier=tier)
+
+  reps = 1 if tier == "quick" else 3
+  for r in range(reps):
+    k = 7 * r
+    ga, gb = geoms[(k + int(seed)) % 3], geoms[(k + 1 + int(seed)) % 3]
+    # tendon: two trees asleep in separate cycles, one is shoved away until the tendon limit becomes active
+    out.append(case(scene([[ga], [gb]], links=[link("spatial", 0, 1, slack=[1.005, 1.02][r % 2], margin=[0.0, 0.03][(r + int(seed)) % 2])], k=k),
+                    [dict(op="shove", i=1, v=3.0, w=0), dict(op="step", n=60)], nworld=1 + r % 2, k=k))
+    # equality: inactive connect/weld between two sleeping trees is switched on in one of two worlds, then one tree is poked in both
+    out.append(case(scene([[ga], [gb, "sphere"]], links=[link(["connect", "weld", "connect_site"][(r + int(seed)) % 3], 0, 1, active=False)], k=k + 1),
+                    [dict(op="eq", i=0, on=True, w=(r + int(seed)) % 2), dict(op="qvel", i=2, v=0.05, w=-1), dict(op="step", n=40)], nworld=2, k=k + 1))
+    # contact: a body is dropped onto a sleeping pile
+    out.append(case(scene([[ga, "box"], [gb]], k=k + 2), [dict(op="drop", i=2, p=0, h=0.05, dx=0.0, v=-0.5, w=-1), dict(op="step", n=70)], k=k + 2))
+    # contact through shoving a sleeping neighbour pile
+    out.append(case(scene([["sphere"], [gb], ["box", ga]], k=k + 3), [dict(op="shove", i=0, v=3.0, w=-1), dict(op="step", n=80)], nworld=2, k=k + 3))
+    # mocap box moved into a sleeping pile
+    out.append(case(scene([[ga], ["box"]], mocap=True, k=k + 4), [dict(op="mocap", p=0, dx=0.12, z=0.05, w=0), dict(op="step", n=40)], nworld=2, k=k + 4))
+    # island kept together by an equality while everything sleeps, then a poke
+    out.append(case(scene([["box", gb], [ga]], links=[link("connect", 0, 2)], k=k + 5), [dict(op="step", n=20), dict(op="qfrc", i=1, v=3.0, w=0), dict(op="step", n=25), dict(op="clear", w=-1), dict(op="step", n=30)], k=k + 5))
+    # one tree held awake by an applied force while its neighbours fall asleep; actuated arm (AUTO_NEVER) linked to a chain by a joint equality / fixed tendon
+    out.append(case(scene([[ga], ["chain"], [gb]], arms=[dict(damping=2.0, motor=True, q0=0.0)], links=[link(["joint", "fixed"][r % 2], 0, 1, slack=1.3)], k=k + 6),
+                    [dict(op="xfrc", i=0, k=5, v=0.5, w=0), dict(op="step", n=40), dict(op="ctrl", i=0, v=0.3, w=-1), dict(op="clear", w=-1), dict(op="step", n=40)], nworld=2, k=k + 6))
+    # tendon, slow: the awake tree creeps below the tolerance (its countdown keeps running) until the tendon limit wakes the sleeping one with that countdown
+    sc = scene([["sphere"], ["sphere"]], links=[link("spatial", 0, 1, slack=1.005, margin=0.0)], k=k)
+    sc["tol"], sc["dt"] = 0.3, 0.005
+    out.append(case(sc, [dict(op="shove", i=1, v=0.25, w=-1), dict(op="step", n=40)], nworld=1 + (r + int(seed)) % 2, k=k))
+    # two awake trees with different countdown values reach the same sleeping tree in the same step (the woken tree takes the smaller value whatever the contact order);
+    # run under the ascending and the descending task order
+    for sch in (0, 1):
+      sc = scene([["box"], ["sphere"], ["sphere"]], k=k)
+      sc["piles"][0][0]["s"], sc["piles"][1][0]["s"], sc["piles"][2][0]["s"] = 1, 0, 0
+      sc["tol"], sc["dt"] = 0.3, 0.005  # both falling bodies stay below the tolerance, so their countdowns keep their offset
+      c = case(sc, [dict(op="qvel", i=12, v=2.0**-10, w=-1), dict(op="step", n=3 + (int(seed) + r) % 3), dict(op="drop", i=1, p=0, h=0.001, dx=0.05, v=-0.01, w=-1),
+                    dict(op="drop", i=2, p=0, h=0.001, dx=-0.12, v=-0.01, w=-1), dict(op="step", n=40)], k=k)
+      c["sched"] = sch
+      out.append(c)
+  return out
+
+
 def build_xml(sc):
   """Returns (xml, info): info carries pile geometry and name lists used to interpret ops."""
-  bodies, sites_xml = [], []
+  bodies = []
   free = []  # names of free root bodies
   scal = []  # scalar joints (name)
   pile_x, pile_top = [], []
@@ -161,7 +229,8 @@ def build_xml(sc):
         child = f'<body name="c{nb}" pos="0.19 0 0"><joint name="{jn}" {jt} damping="0.05"/><geom type="box" size="0.08 0.08 0.08" pos="0.0 0 0"/></body>'
       z = base + h - OVERLAP  # every interface starts 0.5 mm inside the margin so that the initial contacts are unambiguous
       base += 2 * h - OVERLAP
-      bodies.append(f'<body name="{name}" pos="{x0 + dx} 0 {z}"><freejoint name="f{nb}"/>{geom}<site name="s{nb}" size="0.01"/>{child}</body>')
+      pol = f' sleep="{sc["policy"]}"' if nb == 0 and sc.get("policy", "auto") != "auto" else ""
+      bodies.append(f'<body name="{name}" pos="{x0 + dx} 0 {z}"{pol}><freejoint name="f{nb}"/>{geom}<site name="s{nb}" size="0.01"/>{child}</body>')
       free.append(dict(name=name, x=x0 + dx, z=z, h=h, pile=p))
       nb += 1
     pile_x.append(x0)
@@ -235,7 +304,7 @@ def build_xml(sc):
   xml = (
     "<mujoco>"
     f'<option timestep="{sc["dt"]}" sleep_tolerance="{sc["tol"]}" cone="{sc["cone"]}" jacobian="{sc["jacobian"]}" integrator="{sc["integrator"]}" '
-    'solver="Newton" iterations="8" ls_iterations="10"><flag sleep="enable"/></option>'
+    'solver="Newton" iterations="6" ls_iterations="10"><flag sleep="enable"/></option>'
     '<worldbody><geom name="floor" type="plane" size="10 10 .1"/>'
     + "".join(bodies)
     + "</worldbody>"
@@ -390,12 +459,6 @@ class Sim:
   def worlds(self, op):
     return range(self.n) if op["w"] < 0 else [op["w"] % self.n]
 
-  def _write(self, name, fn):
-    """fn(world_index, numpy_row) edits a row in place; applied to MJWarp and (float64 copy) MuJoCo."""
-    arr = getattr(self.d, name)
-    cur = arr.numpy()
-    return arr, cur
-
   def apply(self, op):
     mjm, d = self.mjm, self.d
     k = op["op"]
@@ -462,6 +525,16 @@ class Sim:
         self.mjds[w].qpos[qa : qa + 7] = pos.astype(np.float64)
         self.mjds[w].qvel[da : da + 6] = vel.astype(np.float64)
       d.qpos.assign(cq)
+      d.qvel.assign(cv)
+    elif k == "shove":
+      fr = self.info["free"]
+      f = fr[op["i"] % len(fr)]
+      j = mujoco.mj_name2id(mjm, mujoco.mjtObj.mjOBJ_JOINT, "f" + f["name"][1:])
+      da = int(mjm.jnt_dofadr[j])
+      cv = d.qvel.numpy()
+      for w in ws:
+        cv[w, da] = np.float32(op["v"])
+        self.mjds[w].qvel[da] = float(np.float32(op["v"]))
       d.qvel.assign(cv)
     elif k == "ctrl":
       if mjm.nu:
@@ -609,6 +682,8 @@ class Sim:
       cause = np.zeros(nt_, dtype=bool)  # tree has a wake cause this step (partner awake at the start of the step)
       must = []  # (tree that must not stay asleep, partner that is awake, kind)
       mocap_touch = set()  # trees in contact with a mocap body
+      tendon_caused = set()  # sleeping trees linked to an awake tree by a tendon whose limit is active
+      eq_asleep_pair = set()  # trees asleep in different cycles that an active equality links (both engines wake them)
       for c in np.nonzero(cwid == w)[0]:
         g1, g2 = int(cgeom[c][0]), int(cgeom[c][1])
         if g1 < 0 or g2 < 0:
@@ -636,6 +711,8 @@ class Sim:
               if awake_start[p_] and asleep0[q_]:
                 cause[q_] = True
                 must.append((q_, p_, "equality"))
+            if asleep0[x] and asleep0[y] and _cycle_of(parts0, x) != _cycle_of(parts0, y):
+              eq_asleep_pair |= {x, y}
         elif kind == "tendon":
           if any(awake_start[t] for t in ts):
             for t in ts:
@@ -654,6 +731,7 @@ class Sim:
           for t in ts:
             if asleep0[t]:
               cause[t] = True
+              tendon_caused.add(t)
               if dmin < mg - 1e-5:
                 must.append((t, aw[0], "tendon"))
 
@@ -690,9 +768,13 @@ class Sim:
           if force[t] or moving0[t]:
             rec.cls("wake:poke")
           else:
-            kinds = sorted({k for y, x, k in must if y == t}) or (["cause-near-boundary"] if cause[t] else ["cycle-or-other"])
+            mates = set(_cycle_of(parts0, t) or ()) - {t}
+            via_cycle = any(force[u] or moving0[u] or cause[u] or u in mocap_touch or u in eq_asleep_pair for u in mates)
+            kinds = sorted({k for y, x, k in must if y == t}) or (
+              ["cause-near-boundary"] if cause[t] else ["mocap-contact"] if t in mocap_touch else ["equality-between-sleeping-cycles"] if t in eq_asleep_pair else ["cycle-mate"] if via_cycle else ["other"]
+            )
             rec.cls(*[f"wake:{k}" for k in kinds])
-            if any(k in ("contact", "equality", "tendon") for k in kinds):
+            if any(k in ("contact", "equality", "tendon", "mocap-contact") for k in kinds):
               self.nt = True
 
       # ---- reference model of mj_sleep on the counters (I2) and lock-step with MuJoCo C (D)
@@ -710,6 +792,8 @@ class Sim:
       b1 = np.array(md.tree_asleep) if live else None
       mparts = _cycles(b1) if live else None
       misl = np.array(md.tree_island) if live else None
+      if live:
+        misl = np.where((misl >= 0) & (misl < int(md.nisland)), misl, -1)  # entries are not written when there is no island
       if live and mparts is None:
         raise RuntimeError(f"harness: MuJoCo tree_asleep is not a set of cycles: {b1.tolist()}")
       # counters after the wake phase
@@ -780,10 +864,19 @@ class Sim:
           t = int(T.geom_tree[g])
           return (t < 0 and not T.geom_mocap[g]) or (t >= 0 and kept_asleep[t])
 
+        def filtered(k, x1):  # pair that an engine with end-of-step state x1 skips: every body static or asleep throughout
+          for g in k:
+            t = int(T.geom_tree[g])
+            if (t < 0 and T.geom_mocap[g]) or (t >= 0 and not (asleep0[t] and x1[t] >= 0)):
+              return False
+          return True
+
         far = []
         for k in sorted(set(mpairs) ^ set(wpairs)):
           if inert(k[0]) and inert(k[1]):
             continue
+          if filtered(k, a1 if k in mpairs else b1):
+            continue  # absent because the engine that lacks it kept these trees asleep: a waking difference, judged below
           trees_k = {int(T.geom_tree[k[0]]), int(T.geom_tree[k[1]])} - {-1}
           if min(abs(x) for x in (mpairs.get(k) or wpairs.get(k))) < 1e-5:
             btrees |= trees_k
@@ -798,6 +891,8 @@ class Sim:
               # one-integration-step position offset of a sleeping tree; the affected islands are not judged at this step
               btrees |= trees_k
               rec.cls("collision-differs-from-mujoco")
+              if DEBUG:
+                print("COLLDIFF", ctx, k, "types", [int(mjm.geom_type[g]) for g in k], "in_mj", in_mj, "dist", min(mpairs.get(k) or wpairs.get(k)), "asleep0", [bool(asleep0[t]) for t in trees_k], "a1", a1.tolist(), "b1", b1.tolist())
             elif trees_k & wake_differs:
               pass  # consequence of a waking difference that is judged below
             elif in_mj:
@@ -855,7 +950,11 @@ class Sim:
           t = sleep_t[0]
           rec.violation(f"tree {t} was awake and is {'awake' if a1[t] < 0 else 'asleep'} in MJWarp but {'awake' if b1[t] < 0 else 'asleep'} in MuJoCo; " + info, sig="lockstep:pattern:sleep", tree=t, **ctx)
         elif any(a1[t] < 0 and a1[t] != b1[t] for t in G):
-          rec.violation("countdown values differ; " + info, sig="lockstep:countdown", **ctx)
+          tw = [t for t in G if asleep0[t] and a1[t] < 0 and a1[t] != b1[t] and t in tendon_caused]
+          if tw:
+            rec.violation(f"tree {tw[0]} was woken through an active tendon limit with countdown {int(a1[tw[0]])} in MJWarp, {int(b1[tw[0]])} in MuJoCo; " + info, sig="lockstep:countdown:tendon-wake", tree=tw[0], **ctx)
+          else:
+            rec.violation("countdown values differ; " + info, sig="lockstep:countdown", **ctx)
         else:
           rec.violation("sleep cycles differ; " + info, sig="lockstep:cycles", **ctx)
       if not live:
@@ -883,7 +982,13 @@ class Sim:
         elif b1[t] < 0:
           md.qpos[mq] = q1[w][mq].astype(np.float64)
           md.qvel[mv] = v1[w][mv].astype(np.float64)
-      if differs:
+        elif not asleep0[t] and not np.array_equal(new_q[w][mq], mq64[mq].astype(np.float32)):
+          # fell asleep in both engines at this step: MJWarp integrated the tree once more before putting it to sleep (the listed ordering finding), MuJoCo did not;
+          # take MuJoCo's position so that the offset cannot turn into contact / tendon-limit differences later
+          new_q[w][mq] = mq64[mq].astype(np.float32)
+          rec.notes["fell_asleep_position_offset_resynchronised"] += 1
+          dirty = True
+      if differs or not np.array_equal(a1, b1):
         new_asleep[w] = b1
         dirty = True
       if mjm.na:
